@@ -312,7 +312,7 @@ func (x *Exec) havocHeap(st *State, name string) {
 func (x *Exec) counterMono(name, sort, nv, prev string) {
 	if name == "G$sent" && sort == "(Array Int Int)" {
 		// the number of values sent on a channel only grows
-		x.emit(fmt.Sprintf("(assert (forall ((r$c Int)) (! (>= (select %s r$c) (select %s r$c)) :pattern ((select %s r$c)))))", nv, prev, nv))
+		x.emitGlobal(fmt.Sprintf("(assert (forall ((r$c Int)) (! (>= (select %s r$c) (select %s r$c)) :pattern ((select %s r$c)))))", nv, prev, nv))
 		return
 	}
 	if !strings.HasPrefix(name, "G$calls$") {
@@ -320,9 +320,9 @@ func (x *Exec) counterMono(name, sort, nv, prev string) {
 	}
 	switch {
 	case strings.HasSuffix(name, "$argtotal") && sort == "Int":
-		x.emit(fmt.Sprintf("(assert (>= %s %s))", nv, prev))
+		x.emitGlobal(fmt.Sprintf("(assert (>= %s %s))", nv, prev))
 	case !strings.Contains(name, "$arg") && sort == "(Array Int Int)":
-		x.emit(fmt.Sprintf("(assert (forall ((r$c Int)) (! (>= (select %s r$c) (select %s r$c)) :pattern ((select %s r$c)))))", nv, prev, nv))
+		x.emitGlobal(fmt.Sprintf("(assert (forall ((r$c Int)) (! (>= (select %s r$c) (select %s r$c)) :pattern ((select %s r$c)))))", nv, prev, nv))
 	}
 }
 
@@ -1419,6 +1419,13 @@ func (x *Exec) instr(fr *Frame, b *ssa.BasicBlock, st *State, reach string, ins 
 	case *ssa.RunDefers:
 		x.runDefers(fr, st, reach)
 	case *ssa.Go:
+		if fr.top && x.con != nil && x.con.GoJoin != "" {
+			// joined goroutine: executed as a call at the spawn point (its effects are complete before the function
+			// goes on past the join, which is where they are first used)
+			x.assumed["go statement in "+funcKey(fr.fn)+" executed as a call at the spawn point (gojoin: "+x.con.GoJoin+")"] = true
+			x.call(fr, st, reach, i.Common(), i, types.NewTuple())
+			break
+		}
 		x.warn("go statement: spawned call abstracted by its inferred effects")
 		x.havocEffects(st, x.eng.eff.callEffects(i.Common()))
 	case *ssa.Send:
